@@ -131,7 +131,13 @@ ODD_LINES = [
     # makes of undecodable bytes), NUL, a byte order mark, a burst of noise as long as the stream limit
     "\udc80", "\ud800\udc80;", "1;2;\udcff", "x\udc80;3;1;0;2;v", "1;3;1;0;2\udc80", "256;3;1;0;2;\udc80v", "1;3;9;0;2;\udcfe", "1;3;1;0;\udc80;v",
     "\x00", "1;3;1;0;2\x00", "\ufeff1;3;1;0;2;v", LONG, "1;3;9;0;2;" + LONG, LONG + ";3;1;0;2;v",
+    # characters that mean something to str.format / % / regex / csv machinery, in ill-formed lines
+    '7;300;1;0;2;{"temp": 21}', "7;256;1;0;2;{}", "7;-1;1;0;2;level}", "{};3;1;0;2;v", "1;{0};1;0;2;v", "1;3;{x};0;2;v", "1;3;1;0;{;v", "1;3;9;0;2;%s", "%s;3;1;0;2;v", "1;%(x)s;1;0;2;v",
+    '1;300;1;0;2;"q', "1;3;7;0;2;a|b\\", "1;3;1;5;2;(x", "256;3;1;0;2;[a-",
+    # a payload that itself contains line feeds / carriage returns (an MQTT payload may): still six fields
+    "1;3;1;0;2;first row\nsecond row", "0;255;3;0;9;a\rb\nc", "1;3;1;0;2;\n\nx",
     # well-formed lines whose payload carries the same characters: accepted, decoded literally
+    '1;3;1;0;2;{"temp": 21}', "1;3;1;0;2;%s%(x)s{}", '1;3;1;0;2;"on"', '1;3;1;0;2;a;"b";c',
     "1;3;1;0;2;\udc80", "1;3;1;0;2;a\udcffb;c", "1;3;1;0;2;\x00", "1;3;1;0;2;" + LONG, "1;255;3;0;9;\ufeff",
 ]
 
